@@ -90,12 +90,16 @@ type extOp struct {
 	Pred    int
 	Aliases int // 0, 1 or 2 aliases
 	Dup     bool // register under the shared name "x/dup" instead of a fresh one
+	Same    bool // register under the MIME string of the attachment point (new extension only, like .aaf under application/octet-stream's namesake)
 }
 
 func (o extOp) String() string {
 	d := ""
 	if o.Dup {
 		d = "/dupname"
+	}
+	if o.Same {
+		d += "/parents-name"
 	}
 	return fmt.Sprintf("%s<-%s/a%d%s", extAttach[o.Attach], extPreds[o.Pred].name, o.Aliases, d)
 }
@@ -180,37 +184,19 @@ func (t *treeModel) apply(op extOp) {
 	if k > 0 {
 		prevName = t.exts[k-1].name
 	}
-	var parentName string
+	parentName, target, viaHandle := extTarget(op, prevName, t.handle1)
 	var modelParent *mnode
-	switch extAttach[op.Attach] {
-	case "root-pkg":
+	if viaHandle {
+		modelParent = t.handle1Model
+		parentName = t.handle1Model.name
+	}
+	if op.Same {
+		name = parentName
+	}
+	if target == nil {
 		mimetype.Extend(pred, name, ext, aliases...)
-		parentName = "application/octet-stream"
-	case "root-lookup":
-		mimetype.Lookup("application/octet-stream").Extend(pred, name, ext, aliases...)
-		parentName = "application/octet-stream"
-	case "prev-ext":
-		if prevName == "" {
-			mimetype.Extend(pred, name, ext, aliases...)
-			parentName = "application/octet-stream"
-		} else {
-			mimetype.Lookup(prevName).Extend(pred, name, ext, aliases...)
-			parentName = prevName
-		}
-	case "handle-1":
-		// a handle to the first extension of this history, obtained right after
-		// its registration and kept while the tree changes
-		if t.handle1 == nil {
-			mimetype.Extend(pred, name, ext, aliases...)
-			parentName = "application/octet-stream"
-		} else {
-			t.handle1.Extend(pred, name, ext, aliases...)
-			modelParent = t.handle1Model
-			parentName = t.handle1Model.name
-		}
-	default:
-		parentName = extAttach[op.Attach]
-		mimetype.Lookup(parentName).Extend(pred, name, ext, aliases...)
+	} else {
+		target.Extend(pred, name, ext, aliases...)
 	}
 	p := modelParent
 	if p == nil {
@@ -221,14 +207,43 @@ func (t *treeModel) apply(op extOp) {
 	p.children = append([]*mnode{n}, p.children...)
 	t.exts = append(t.exts, extRecord{name, ext, parentName, aliases, backing[op.Aliases:]})
 	if k == 0 {
+		// a handle obtained through Lookup: the first node of that name in
+		// pre-order, in the implementation and in the model alike
 		t.handle1 = mimetype.Lookup(name)
-		t.handle1Model = n
+		t.handle1Model = t.find(name)
 	}
 	t.preds = append(t.preds, pred)
 	if t.hist != "" {
 		t.hist += " ; "
 	}
 	t.hist += op.String()
+}
+
+// extTarget resolves the attachment point of one Extend call through the
+// public API: the name of the parent, the value to call Extend on (nil: the
+// package-level function) and whether the held handle was used.
+func extTarget(op extOp, prevName string, handle1 *mimetype.MIME) (parentName string, target *mimetype.MIME, viaHandle bool) {
+	const rootName = "application/octet-stream"
+	switch extAttach[op.Attach] {
+	case "root-pkg":
+		return rootName, nil, false
+	case "root-lookup":
+		return rootName, mimetype.Lookup(rootName), false
+	case "prev-ext":
+		if prevName == "" {
+			return rootName, nil, false
+		}
+		return prevName, mimetype.Lookup(prevName), false
+	case "handle-1":
+		// a handle to the first extension of this history, obtained right after
+		// its registration and kept while the tree changes
+		if handle1 == nil {
+			return rootName, nil, false
+		}
+		return "", handle1, true
+	default:
+		return extAttach[op.Attach], mimetype.Lookup(extAttach[op.Attach]), false
+	}
 }
 
 // wrap installs the consultation recorder on every implementation detector.
